@@ -56,6 +56,12 @@ var recShapes = []recShape{
 		fields: func(tA, tB, tX, tN1, tN2, tC *cpRType) []cpRField {
 			return []cpRField{{Name: "X", Type: tX, Offset: 0}, {Name: "C", Tag: `json:"c"`, Type: tC, Offset: 8}}
 		}},
+	// a nested record held through a pointer is a field the struct has: whether a field is present is a matter of
+	// its name alone, what it can hold is for the field's own codec builder to accept or refuse
+	{name: "struct {X, N1 *Inner1} (a nested record through a pointer)", size: 16, present: [6]bool{false, false, false, true, false, false}, off: [6]int64{0, 0, 0, 8, 0, 0},
+		fields: func(tA, tB, tX, tN1, tN2, tC *cpRType) []cpRField {
+			return []cpRField{{Name: "X", Type: tX, Offset: 0}, {Name: "N1", Tag: `json:"n1"`, Type: &cpRType{ID: "*" + tN1.ID, Kind: int64(reflect.Ptr), Elem: tN1, Size: 8}, Offset: 8}}
+		}},
 	{name: "struct {B, X} (only a middle schema field)", size: 16, present: [6]bool{false, false, true, false, false, false}, off: [6]int64{0, 0, 0, 0, 0, 0},
 		fields: func(tA, tB, tX, tN1, tN2, tC *cpRType) []cpRField {
 			return []cpRField{{Name: "B", Tag: `json:"b"`, Type: tB, Offset: 0}, {Name: "X", Type: tX, Offset: 8}}
@@ -88,7 +94,7 @@ func recordByFold(P *Program) *recFold {
 			}
 		}
 	}
-	r.detail += fmt.Sprintf("; repeated for %d target shapes in all (no, only the first, only the last, only a middle schema field present)", len(recShapes))
+	r.detail += fmt.Sprintf("; repeated for %d target shapes in all (no, only the first, only the last, only a middle schema field present, a nested record through a pointer)", len(recShapes))
 	return r
 }
 
@@ -243,9 +249,16 @@ func recordFoldOne(P *Program, sh recShape) *recFold {
 	wantSchema := []string{"long", "string", "double", "record", "Inner", "long"}
 	wantTyp := []cpVal{tA, cpNil{}, tB, tN1, tN2, tC}
 	wantOff := sh.off[:]
-	for k := range wantTyp {
+	for k, nm := range []string{"a", "gone", "b", "n1", "n2", "c"} {
 		if !sh.present[k] {
 			wantTyp[k] = cpNil{}
+			continue
+		}
+		// the Go type is that of the shape's own field of that name (a shape may hold a nested record through a pointer)
+		for _, f := range rt.Fields {
+			if strings.Contains(f.Tag, `json:"`+nm+`"`) {
+				wantTyp[k] = f.Type
+			}
 		}
 	}
 	nF := len(wantSchema)
